@@ -244,6 +244,12 @@ where
             .as_ref()
             .ok_or(PlanningError::PlannerUninitialised)?;
         let goal = &pd.goal;
+
+        // A start state the checker rejects can never be part of a valid path.
+        if !vc.is_valid(&pd.start_states[0]) {
+            return Err(PlanningError::InvalidStartState);
+        }
+
         let mut rng = self
             .rng
             .take()
